@@ -41,6 +41,15 @@ type vC16EmbPtr struct {
 	Tag string
 }
 
+// field names that differ only in letter case: an exact match must win over the case-insensitive fallback
+type vC16Case struct {
+	Lo  int8   `ion:"key"`
+	Up  int8   `ion:"KEY"`
+	N1  string `ion:"nm"`
+	N2  string `ion:"Nm"`
+	Mid bool   `ion:"kEy"`
+}
+
 type vC16Emb16 struct {
 	P uint16
 }
@@ -59,7 +68,7 @@ func vC16Marshal(v interface{}, mode int) ([]byte, error) {
 		return MarshalText(v)
 	default:
 		// a fixed local symbol table that declares every field name of the table types
-		return MarshalBinaryLST(v, NewLocalSymbolTable(nil, []string{"A", "b", "C", "D", "E", "F", "G", "H", "I", "P", "s", "X", "y", "Dec", "Ts", "N", "PD", "k", "F32", "F64", "T", "M", "PS", "Sx", "Cl", "V", "a", "OP", "OI", "ID", "Name", "Tag"}))
+		return MarshalBinaryLST(v, NewLocalSymbolTable(nil, []string{"A", "b", "C", "D", "E", "F", "G", "H", "I", "P", "s", "X", "y", "Dec", "Ts", "N", "PD", "k", "F32", "F64", "T", "M", "PS", "Sx", "Cl", "V", "a", "OP", "OI", "ID", "Name", "Tag", "key", "KEY", "nm", "Nm", "kEy"}))
 	}
 }
 
@@ -353,6 +362,21 @@ func H_C16_rt() {
 		if in.VC16Base != nil {
 			vassert(out.ID == in.ID && out.Name == in.Name, "promoted fields of the embedded pointer are equal")
 		}
+	case 7: // field names that differ only in letter case
+		in := vC16Case{Lo: int8(vnondetU8()), Up: int8(vnondetU8()), N1: "p", N2: "q", Mid: vnondetBool()}
+		if mode == 1 {
+			// text: one decimal digit per integer, concrete strings (escapes and digits multiply the paths)
+			vassume(in.Lo > -10 && in.Lo < 10 && in.Up > -10 && in.Up < 10)
+		} else {
+			in.N1, in.N2 = vC16Str(1), vC16Str(1)
+		}
+		bs, err := vC16Marshal(in, mode)
+		vassert(err == nil, "a struct with case-colliding field names marshals")
+		var out vC16Case
+		err = Unmarshal(bs, &out)
+		vassert(err == nil, "what Marshal wrote unmarshals into the same type")
+		vassert(out.Lo == in.Lo && out.Up == in.Up && out.Mid == in.Mid, "each field gets its own value back (exact name wins over case folding)")
+		vassert(out.N1 == in.N1 && out.N2 == in.N2, "string fields with case-colliding names are equal")
 	default: // big.Int
 		// concrete boundary values, symbolic choice (the integer codecs themselves are covered with symbolic values by C01/C13)
 		in, _ := new(big.Int).SetString([]string{"0", "1", "-1", "255", "-256", "9223372036854775807", "-9223372036854775808", "18446744073709551616", "-1000000000000000000000000000000"}[vnondetInt(0, 8)], 10)
